@@ -27,3 +27,48 @@ def extra(ctx, rep):
                         f"the OpenQASM serialiser {s.why}: exporting a circuit changes it, so a second export of the same QuantumScript "
                         "denotes a different program", line=s.line)
     rep.floor("serialiser entry points analysed for purity", n, 1)
+
+
+def shadow(ctx, rep):
+    """R-C67-shadow: identifiers declared by the imported program are looked up before the interpreter's built-in constants."""
+    import ast
+
+    from ..cfg import CFG
+    from ..core import norm
+
+    ix = ctx.index
+    rel = "pennylane/io/qasm_interpreter.py"
+    rep.rule("R-C67-shadow", "in Context.retrieve_variable the built-in constant table is consulted only after every namespace the program itself fills "
+             "(`name in self.<namespace>` tests): a program that declares a variable, loop index or gate parameter called `e`, `pi`, `tau` … must read "
+             "its own value, not the constant")
+    f = ix.func(rel, "Context.retrieve_variable")
+    rep.analysed(rel, f.qualname)
+    pname = f.node.args.args[1].arg
+    cfg = CFG(f.node, may_raise=lambda n: False)
+    tests = [n for n in cfg.stmts("test") if isinstance(n.stmt, ast.If)]
+
+    def kind(t):
+        e = t.stmt.test
+        if isinstance(e, ast.Compare) and len(e.ops) == 1 and isinstance(e.ops[0], ast.In) and isinstance(e.left, ast.Name) and e.left.id == pname:
+            c = e.comparators[0]
+            if isinstance(c, ast.Attribute) and isinstance(c.value, ast.Name) and c.value.id == "self":
+                return "own", c.attr
+            if isinstance(c, ast.Name) and c.id.isupper():
+                return "builtin", c.id
+        return None, None
+    own = [(t, kind(t)[1]) for t in tests if kind(t)[0] == "own"]
+    builtin = [(t, kind(t)[1]) for t in tests if kind(t)[0] == "builtin"]
+    if not own or not builtin:
+        rep.unknown("R-C67-shadow", f"{rel}:Context.retrieve_variable", "lookup chain not recognised")
+        return
+    dom = cfg.dominators()
+    for bt, bname in builtin:
+        late = [a for t, a in own if t.id not in dom.get(bt.id, set())]
+        if late:
+            rep.refuted("R-C67-shadow", rel, "Context.retrieve_variable", f"{pname} in {bname} before {pname} in self.{late[0]}",
+                        f"the constant table {bname} is consulted before the program's own `{late[0]}`: an imported program that declares an identifier "
+                        "with the name of a built-in constant (e, pi, tau, euler …) silently computes with the constant instead of its own value",
+                        line=bt.stmt.lineno)
+        else:
+            rep.proved("R-C67-shadow", f"{rel}:Context.retrieve_variable {bname}", f"looked up after {[a for _, a in own]}")
+    rep.floor("program namespaces consulted by retrieve_variable", len(own), 3)
